@@ -150,7 +150,9 @@ def instantiate(interp, sp, name, shared, sizes=None):
         return get_size(interp, sp.name)
     if isinstance(sp, S.Arr):
         shape = tuple(get_size(interp, s) for s in sp.shape)
-        return npm.fresh_arr(ctx, shape, sp.dtype, name)
+        a = npm.fresh_arr(ctx, shape, sp.dtype, name)
+        shared[name] = a
+        return a
     if isinstance(sp, S.Obj):
         o = SObj(sp.cls, {})
         shared[name] = o
@@ -168,6 +170,18 @@ def instantiate(interp, sp, name, shared, sizes=None):
     if isinstance(sp, S.Callable):
         r = instantiate(interp, sp.ret, name + '()', shared)
         return SCallable(r)
+    if isinstance(sp, S.SliceT):
+        return slice(get_size(interp, sp.lo), get_size(interp, sp.hi), None)
+    if isinstance(sp, S.ViewOf):
+        base = shared.get(sp.path)
+        if not isinstance(base, SArr):
+            raise Unsupported('ViewOf(%s): base array not found' % sp.path)
+        lo, hi = get_size(interp, sp.lo), get_size(interp, sp.hi)
+        ctx.assume(scalar_cmp('<=', lo, hi))
+        ctx.assume(scalar_cmp('<=', hi, base.n))
+        v = npm.slice_view(ctx, base, slice(lo, hi, None))
+        shared[name] = v
+        return v
     if isinstance(sp, S.Shared):
         if sp.path not in shared:
             raise Unsupported('Shared(%s) refers to a later/unknown parameter' % sp.path)
@@ -246,10 +260,54 @@ def bind_sizes(interp, sp, val, sizes, what):
                 bind_sizes(interp, v, val[k], sizes, what)
 
 
+def spec_matches(sp, val):
+    """Does an actual value fit a parameter spec (used to pick the contract variant)?"""
+    if not isinstance(sp, S.T):
+        sp = S.Const(sp)
+    if isinstance(sp, S.Const):
+        v = sp.v
+        if v is None or isinstance(v, (bool, str)):
+            return val is v or (isinstance(v, str) and val == v)
+        if isinstance(v, (int, float)):
+            return not is_z3(val) and isinstance(val, (int, float, Fraction)) and val == v
+        return True
+    if isinstance(sp, S.OneOf):
+        return any(spec_matches(a, val) for a in sp.alts)
+    if isinstance(sp, S.Arr):
+        return isinstance(val, SArr) and len(sp.shape) == val.ndim and \
+            (sp.dtype == val.dtype or (sp.dtype == 'real' and val.dtype == 'int'))
+    if isinstance(sp, S.ViewOf):
+        return isinstance(val, SArr)
+    if isinstance(sp, S.Obj):
+        if not isinstance(val, SObj):
+            return False
+        return all(spec_matches(v, val.attrs[k]) for k, v in sp.attrs.items() if k in val.attrs)
+    if isinstance(sp, (S.Real, S.FP)):
+        return (is_z3(val) and not z3.is_bool(val)) or isinstance(val, (int, float, Fraction)) and not isinstance(val, bool)
+    if isinstance(sp, S.Int) or isinstance(sp, S.Size):
+        return is_int_term(val) or (isinstance(val, int) and not isinstance(val, bool))
+    if isinstance(sp, S.Bool):
+        return isinstance(val, bool) or is_bool_term(val)
+    if isinstance(sp, S.SliceT):
+        return isinstance(val, slice)
+    if isinstance(sp, S.TupleT):
+        return isinstance(val, tuple) and len(val) == len(sp.items) and all(
+            spec_matches(a, b) for a, b in zip(sp.items, val))
+    if isinstance(sp, S.DictT):
+        return isinstance(val, dict) and all(k in val and spec_matches(v, val[k]) for k, v in sp.items.items())
+    return True
+
+
 def apply_callee_contract(interp, cands, mod, cname, fn, args, kwargs, ftxt):
     ctx = interp.ctx
-    c = cands[0]
     env = interp.bind_args(mod, cname, fn, args, kwargs)
+    c = None
+    for cand in cands:
+        if all(spec_matches(sp, env[p]) for p, sp in cand.params.items() if p in env):
+            c = cand
+            break
+    if c is None:
+        raise Unsupported('call to %s: no contract variant matches the actual arguments' % cands[0].target)
     sizes = {}
     for pname, sp in c.params.items():
         if pname in env:
@@ -359,6 +417,7 @@ def nice_model_factory(penv, sizes):
     multiple of 1/8 in [-100, 100].  Falls back to the original model."""
     def nice(solver, m):
         reals = []
+        mm = [m]
 
         def walk(v, seen):
             if id(v) in seen:
@@ -368,7 +427,7 @@ def nice_model_factory(penv, sizes):
                 if z3.is_real(v) and z3.is_const(v) and v.decl().kind() == z3.Z3_OP_UNINTERPRETED:
                     reals.append(v)
             elif isinstance(v, SArr):
-                shape = [s if isinstance(s, int) else model_num(m, s) for s in v.shape]
+                shape = [s if isinstance(s, int) else model_num(mm[0], s) for s in v.shape]
                 if all(isinstance(x, int) and x <= 8 for x in shape) and v.dtype in ('real', 'complex'):
                     for ix in itertools.product(*[range(x) for x in shape]):
                         e = v.get(*[z3.IntVal(i) for i in ix])
@@ -387,22 +446,38 @@ def nice_model_factory(penv, sizes):
             elif isinstance(v, Cx):
                 walk(v.re, seen)
                 walk(v.im, seen)
-        seen = set()
-        for v in penv.values():
-            walk(v, seen)
-        solver.push()
-        try:
-            for nm, sz in sizes.items():
-                if is_z3(sz):
-                    solver.add(sz == m.eval(sz, model_completion=True))
-            for i, r in enumerate(reals):
-                k = z3.Int('nice!%d' % i)
-                solver.add(r * 8 == z3.ToReal(k), k >= -800, k <= 800)
-            solver.set('timeout', 5000)
-            if solver.check() == z3.sat:
-                return solver.model()
-        finally:
-            solver.pop()
+        for attempt in ('small', 'same'):
+            reals[:] = []
+            solver.push()
+            try:
+                if attempt == 'small':
+                    szs = {}
+                    for nm, sz in sizes.items():
+                        if is_z3(sz):
+                            solver.add(sz <= 4)
+                    solver.set('timeout', 3000)
+                    if solver.check() != z3.sat:
+                        continue
+                    m_sz = solver.model()
+                else:
+                    m_sz = m
+                for nm, sz in sizes.items():
+                    if is_z3(sz):
+                        solver.add(sz == m_sz.eval(sz, model_completion=True))
+                mm[0] = m_sz
+                seen = set()
+                for v in penv.values():
+                    walk(v, seen)
+                for i, r in enumerate(reals):
+                    k = z3.Int('nice!%d' % i)
+                    solver.add(r * 8 == z3.ToReal(k), k >= -800, k <= 800)
+                solver.set('timeout', 5000)
+                if solver.check() == z3.sat:
+                    return solver.model()
+                if attempt == 'small':
+                    return m_sz
+            finally:
+                solver.pop()
         return None
     return nice
 
@@ -531,10 +606,20 @@ def frame_obligations(interp, params_env, old_env, modifies, label):
         return any(path == m or path.startswith(m + '.') or path.startswith(m + '[') for m in mods)
 
     seen = set()
+    mod_stores = set()
+    for mpath in mods:
+        try:
+            it_v = interp.eval(ast.parse(mpath, mode='eval').body, dict(params_env))
+        except Exception:
+            continue
+        if isinstance(it_v, SArr):
+            mod_stores.add(id(it_v.store))
 
     def walk(path, now, old):
         if allowed(path):
             return
+        if isinstance(now, SArr) and id(now.store) in mod_stores and isinstance(old, SArr):
+            return      # a view of an array listed in `modifies` (aliasing)
         if id(now) in seen:
             return
         if isinstance(now, SObj):
@@ -748,6 +833,7 @@ def verify_contract(c, registry, overrides=None, timeout_ms=10000, log=None, wan
                         memo = {}
                         rec['model'] = {k: concretize(old[k], ob.model, memo) for k in penv}
                         rec['model_sizes'] = {k: concretize(v, ob.model) for k, v in it.sizes.items()}
+                        rec['model']['__sizes__'] = rec['model_sizes']
                     except Exception as e:
                         rec['model_error'] = repr(e)
                 if st == 'unknown':
